@@ -76,6 +76,17 @@ CLAIMS['C18'] = {
     'design': 'DESIGN.md section 5 C18',
 }
 
+CLAIMS['C17'] = {
+    'text': 'utf8_append_utf32 is proved over all 2^32 arguments (loop-free): it reports success exactly for Unicode scalar values, then appends exactly the well-formed encoding (written from Unicode table 3-6, and shown to round-trip through the table 3-7 decoder specification of C10), and appends nothing on rejection; unhex_char maps the 22 permitted characters to their values with std::terminate unreachable; unhex_string (<= 8 digits) equals the base-16 Horner value; unescape_c maps each escaped character to its listed value; unescape_j on one or two consecutive escapes combines a high/low surrogate pair into the single code point, encodes every other escape individually and raises exactly for lone surrogates, reading its hex digits only inside the action input.',
+    'note': 'std::string += / append are assumed contracts over a ghost output buffer; unescape_j bounded to <= 2 escapes, unhex_string to <= 8 digits (complete unwinding); unescape_u / unescape_x are thin wrappers over the proved helpers and not separately under contract; the json_unescape example is not under contract.',
+    'design': 'DESIGN.md section 5 C17',
+}
+CLAIMS['C19'] = {
+    'text': 'memory_input::at and begin_of_line are proved, for positions characterised by ghost offsets as obtained from this input (eager and lazy, lf_crlf), to return exactly the byte of the position and the start of its line, inside the input, when the input was constructed with default initial counters; with non-default initial counters the same obligations fail (open known finding D9).',
+    'note': 'end_of_line / line_at (a nested lazy memory_input constructed through an inherited constructor and until<at<eolf>>) are not yet under contract; positions are characterised by ghost offsets, not traced through a parsing run.',
+    'design': 'DESIGN.md section 5 C19',
+}
+
 NOT_APPLICABLE = {
     'C14': 'language equality between a recursive grammar and RFC 8259 is not a per-function contract; json.hpp contains no function bodies (DESIGN.md section 5, C14)',
 }
